@@ -111,6 +111,8 @@ def run(project, chk):
     m = project.module("cm_colors.core.optimisation")
     n_uses = 0
     for q, f in sorted(m.funcs.items()):
+        if f.qualname in project.outside_surface:
+            continue        # a function added after the pinned tree that no pinned function calls: not on any path from make_readable
         aliases = {MIN}
         for n in own_nodes(f.node):     # simple aliases: x = min_contrast
             if isinstance(n, ast.Assign) and isinstance(n.value, ast.Name) and n.value.id in aliases and len(n.targets) == 1 and isinstance(n.targets[0], ast.Name):
